@@ -35,6 +35,8 @@ EXTENDS Integers, Sequences, FiniteSets, TLC, Json, CSV, IOUtils
 
 CONSTANTS MinN, MaxN,   \* graph sizes enumerated (number of nodes incl. the grid)
           ShardK, ShardI,  \* only category vectors with Code mod ShardK = ShardI (1, 0: all of them)
+          Shape, ShapeCats,  \* "any": every graph; "twomixed": targeted stage -- nodes 2 and 3 are meters,
+                        \* the others range over ShapeCats, and only graphs satisfying TwoMixed are chosen
           CandN         \* for n <= CandN every candidate tree is enumerated and filtered by the
                         \* transcribed rules (rejected ones are emitted too); above, candidates are
                         \* constructed inside the premise directly (invariant GraphAccepted re-checks)
@@ -312,6 +314,15 @@ DomainParents(k) == IF k = 1 THEN {<<0>>}
 
 NoGen == [nm \in Names |-> Pending]
 
+\* targeted shape: no grid meter and at least two consumer meters (grid successors that are not
+\* dedicated) that each have device chains below them -- the repaired consumer formula has to
+\* subtract the chains below EVERY one of them (needs n >= 8: grid, 2 meters with 2 nodes below
+\* each, and one more grid successor that makes "no grid meter")
+TwoMixed == /\ ~AreGridMeters
+            /\ Cardinality({m \in ConsumerComponents : \E d \in Desc(m) : cat[d] \in DeviceCats}) >= 2
+ShapeVectors(k) == {[i \in 1..k |-> IF i = 1 THEN "GRID" ELSE IF i \in {2, 3} THEN "METER" ELSE s[i - 3]] :
+                       s \in [1..(k - 3) -> ShapeCats]}
+
 \* deterministic sharding of the category vectors (big n is explored one shard at a time)
 CatSeq == <<"GRID", "METER", "BATINV", "PVINV", "EV", "CHP">>
 CatCode(c) == CHOOSE k \in 1..Len(CatSeq) : CatSeq[k] = c
@@ -319,7 +330,7 @@ VecCode(v) == LET s[k \in 0..Len(v)] == IF k = 0 THEN 0 ELSE s[k - 1] + k * CatC
 
 Init ==
     /\ n \in MinN..MaxN
-    /\ cat \in {v \in CatVectors(n) : VecCode(v) % ShardK = ShardI}
+    /\ cat \in {v \in (IF Shape = "any" THEN CatVectors(n) ELSE ShapeVectors(n)) : VecCode(v) % ShardK = ShardI}
     /\ parent = <<>> /\ pc = "topology" /\ gen = NoGen
 
 \* antecedent flags of the clauses, emitted with every graph (counted by the harness: vacuity)
@@ -334,6 +345,7 @@ ChooseTopology ==
     /\ UNCHANGED <<n, cat, gen>>
     /\ parent' \in (IF n <= CandN THEN AllParents(n) ELSE DomainParents(n))
     /\ ValidationOK' /\ InDomain'
+    /\ (Shape = "any" \/ TwoMixed')
     /\ pc' = "grid"
     /\ Emit([k |-> "graph", n |-> n, cat |-> cat, parent |-> parent', flags |-> Flags'])
 
